@@ -70,7 +70,7 @@ var properties = map[string]*Property{
 		ID:    "C05",
 		Title: "Statement control flow is executed exactly as in Go",
 		Units: []Unit{
-			{Kind: "funcs", Pkg: "fast", Funcs: []string{"(*Comp).jumpOut", "(*Comp).Goto", "(*Comp).rangeString"}},
+			{Kind: "funcs", Pkg: "fast", Funcs: []string{"(*Comp).jumpOut", "(*Comp).Goto", "(*Comp).rangeString", "(*typecaseHelper).add"}},
 		},
 		NotCovered: []string{
 			"range over a string: only the frame of each closure (what it may write, and that the direct store is chosen only for an int32 slot) - not the iteration itself (utf8 decoding, order, termination)",
@@ -147,10 +147,10 @@ var properties = map[string]*Property{
 		ID:    "C13",
 		Title: "Interrupting running code stops it promptly and leaves the interpreter usable",
 		Units: []Unit{
-			{Kind: "funcs", Pkg: "fast", Funcs: []string{"(*Run).interrupt", "spinInterrupt", "(*Run).applyAsyncSignal", "restore"}},
+			{Kind: "funcs", Pkg: "fast", Funcs: []string{"(*Run).interrupt", "spinInterrupt", "(*Run).applyAsyncSignal", "restore", "reExecWithFlags", "exec$1"}},
 		},
 		NotCovered: []string{
-			"promptness: that the executor polls the signal after a bounded number of statements (the unrolled loops of Code.Exec and reExecWithFlags) - a bound on a run, not a property of one call",
+			"promptness as a bound on a run: for reExecWithFlags (function bodies with defer, deferred calls, debugger mode) every round of at most 15 statements is proved to start with no signal pending, so a signal is noticed at the end of the round it was raised in; the same is proved for the executor without defer (the literal of exec); that a round terminates is not (a statement is an arbitrary function)",
 			"asynchronous delivery (the flag is written by another goroutine: data race and memory model are outside the sequential model)",
 			"that the interpreter keeps its definitions afterwards is the subject of C12 (every exit restores the bookkeeping), claimed there",
 		},
@@ -171,13 +171,13 @@ var properties = map[string]*Property{
 		ID:    "C19",
 		Title: "Debugging is transparent and step/next/finish/continue stop where documented",
 		Units: []Unit{
-			{Kind: "funcs", Pkg: "fast", Funcs: []string{"singleStep", "(*Run).applyDebugOp"}},
-			{Kind: "funcs", Pkg: "fast/debug", Funcs: []string{"(*Debugger).cmdStep", "(*Debugger).cmdNext", "(*Debugger).cmdFinish", "(*Debugger).cmdContinue"}},
+			{Kind: "funcs", Pkg: "fast", Funcs: []string{"singleStep", "(*Run).applyDebugOp", "reExecWithFlags"}},
+			{Kind: "funcs", Pkg: "fast/debug", Funcs: []string{"(*Debugger).cmdStep", "(*Debugger).cmdNext", "(*Debugger).cmdFinish", "(*Debugger).cmdContinue", "(*Debugger).main"}},
 		},
 		NotCovered: []string{
-			"transparency: that a program gives the same results under the debugger (the single-step executor loop of reExecWithFlags against the normal one): a relation between two executions",
+			"transparency in general (same results with and without the debugger is a relation between two executions); two pieces of it are proved: while single-stepping, the end of a function body without a return statement is a return (singleStep), and a pending request to install a deferred function is never left pending across a single step (loop invariants of reExecWithFlags)",
 			"that the command table binds s, n, f, c to these four functions (a package-level map: only flat package variables get their initial values, see DESIGN.md 0.2)",
-			"explicit breakpoints (Comp.breakpoint), Interp.debug, the debugger's own REPL",
+			"explicit breakpoints (Comp.breakpoint), Interp.debug, the debugger's own REPL (of Debugger.main only: a statement that is not shown is answered with the depth in force)",
 		},
 	},
 	"C20": {
@@ -185,9 +185,10 @@ var properties = map[string]*Property{
 		Title: "Macro expansion rewrites exactly the macro calls and leaves other code unchanged",
 		Units: []Unit{
 			{Kind: "funcs", Pkg: "base", Funcs: []string{"unwrapTrivialAst2"}},
+			{Kind: "funcs", Pkg: "fast", Funcs: []string{"(*Comp).macroExpandCodewalk"}},
 		},
 		NotCovered: []string{
-			"macro expansion itself: the code walk with its quasiquote depth (Comp.macroExpandCodewalk), macro call detection and argument consumption (MacroExpand1, extractMacroCall), repetition until no macro call remains, quote / quasiquote: recursion over syntax trees with calls of interpreted macros",
+			"macro expansion itself: of the code walk (Comp.macroExpandCodewalk) only that the quasiquote depth handed to a child is the current one, one more or one less (nesting is counted); which of the three, and macro call detection and argument consumption (MacroExpand1, extractMacroCall), repetition until no macro call remains, quote / quasiquote: recursion over syntax trees with calls of interpreted macros",
 			"a one-statement block holding `x := ...` (the operator is read through Ast.Op of the child: proved only for declaration statements); SimplifyNodeForQuote (the ast.Node twin of this function)",
 		},
 	},
